@@ -83,107 +83,123 @@ def run(ck: Checker, prog: Program, tier: str):
 
 # --------------------------------------------------------------------------- R3
 def _r3(ck: Checker, prog: Program, f) -> Tuple[Optional[str], Optional[str]]:
+    """Decision table of the propagation tail: no result object -> nothing; HvsrTraditional -> both masks of the object;
+    HvsrAzimuthal -> both masks of every member; anything else raises.  Every store is a fresh np.array of the one decision list."""
+    from ..pathtable import PathTable, literals, same_rel, negate
     fq = f.qualname
     cfg = cfg_of(f)
-    # the propagation block
-    prop = None
-    for st in f.node.body:
-        if isinstance(st, ast.If) and isinstance(st.test, ast.Compare) and isinstance(st.test.left, ast.Name) \
-                and st.test.left.id == "hvsr" and isinstance(st.test.ops[0], (ast.IsNot, ast.NotEq)) \
-                and isinstance(st.test.comparators[0], ast.Constant) and st.test.comparators[0].value is None:
-            prop = st
-    if prop is None:
-        raise AnalysisError(f"{fq}: `if hvsr is not None:` propagation block not found at function level")
-    # every path to the normal exit evaluates the test
-    pn = cfg.node(prop)
-    path = cfg.path_avoiding(cfg.entry, cfg.exit, [pn])
+
+    def has_mask_store(st):
+        return any(isinstance(x, ast.Assign) and any(isinstance(t, ast.Attribute) and t.attr in MASKS for t in x.targets) for x in ast.walk(st))
+    idx = [i for i, st in enumerate(f.node.body) if has_mask_store(st)]
+    if not idx:
+        ck.violation("C13.R3", fq, "mask propagation", "the decisions are never stored on the result object (no store to the accept masks)", loc=f.loc())
+        return None, None
+    first = f.node.body[idx[0]]
+    tail = f.node.body[idx[0]:]
+    path = cfg.path_avoiding(cfg.entry, cfg.exit, [cfg.node(first)])
     if path is not None:
         ck.violation("C13.R3", fq, "mask propagation reached on every path",
-                     "there is a path to the return that skips the `hvsr is not None` mask propagation",
-                     loc=f.loc(prop), path=cfg.describe_path(path)[:14])
+                     "there is a path to the return that skips the mask propagation", loc=f.loc(first), path=cfg.describe_path(path)[:14])
     else:
-        ck.ok("C13.R3", fq, "every path to the return evaluates `hvsr is not None`")
-    if not reaching(f).only_param("hvsr", prop):
-        ck.violation("C13.R3", fq, "hvsr rebound", "`hvsr` is rebound before the propagation", loc=f.loc(prop))
-    # stores in the block
-    stores: Dict[str, List[ast.Assign]] = {m: [] for m in MASKS}
-    for st in ast.walk(prop):
-        if isinstance(st, ast.Assign):
-            for t in st.targets:
-                if isinstance(t, ast.Attribute) and t.attr in MASKS:
-                    stores[t.attr].append(st)
+        ck.ok("C13.R3", fq, "every path to the return evaluates the mask propagation")
+    if not reaching(f).only_param("hvsr", first):
+        ck.violation("C13.R3", fq, "hvsr rebound", "`hvsr` is rebound before the propagation", loc=f.loc(first))
+    R = lambda n: sp.Symbol(n, real=True)   # noqa: E731
+    H, NONE = R("hvsr"), sp.Symbol("None")
+    truth, isin = sp.Function("truth"), sp.Function("isinstance")
+    is_none = sp.Eq(H, NONE, evaluate=False)
+    is_trad = sp.Eq(truth(isin(H, R("HvsrTraditional"))), sp.true, evaluate=False)
+    is_az = sp.Eq(truth(isin(H, R("HvsrAzimuthal"))), sp.true, evaluate=False)
+    pt = PathTable(prog, f.module, structured=True)
+    leaves = pt.leaves(tail)
+
+    def case(l, rel):
+        ls = literals(l)
+        if any(same_rel(x, rel) for x in ls):
+            return True
+        if any(same_rel(x, negate(rel)) for x in ls):
+            return False
+        return None
     mask_vars = set()
-    for m, sts in stores.items():
-        for st in sts:
-            v = st.value
-            inner = None
-            if isinstance(v, ast.Call) and dotted(v.func) in ("np.array", "numpy.array", "np.asarray", "np.copy") and v.args \
-                    and isinstance(v.args[0], ast.Name):
-                inner = v.args[0].id
-                dt = kwarg(v, "dtype")
-                if dt is not None and unparse(dt) not in ("bool", "np.bool_", "numpy.bool_"):
-                    ck.violation("C13.R3", fq, norm_key(st), f"mask stored with dtype {unparse(dt)}", loc=f.loc(st))
-            elif isinstance(v, ast.Name):
-                inner = v.id
-            if inner is None:
-                ck.violation("C13.R3", fq, norm_key(st), "mask is not assigned from the per-window decision list", loc=f.loc(st))
-            else:
-                mask_vars.add(inner)
-    # branch structure: traditional (direct on hvsr) and azimuthal (loop over hvsr.hvsrs), else raise
-    ladder = [n for n in prop.body if isinstance(n, ast.If)]
-    if len(ladder) != 1:
-        raise AnalysisError(f"{fq}: propagation block is not a single isinstance ladder")
-    lad = ladder[0]
-    branches = []
-    cur = lad
-    while isinstance(cur, ast.If):
-        branches.append((cur.test, cur.body))
-        if len(cur.orelse) == 1 and isinstance(cur.orelse[0], ast.If):
-            cur = cur.orelse[0]
-        else:
-            branches.append((None, cur.orelse))
-            break
-    seen_classes = []
-    for test, body in branches:
-        if test is None:
-            if not any(isinstance(b, ast.Raise) for b in body):
-                ck.violation("C13.R3", fq, "else branch", "unsupported HVSR types are not refused", loc=f.loc(lad))
-            continue
-        cname = None
-        if isinstance(test, ast.Call) and call_name(test) == "isinstance" and len(test.args) == 2 \
-                and isinstance(test.args[1], ast.Name):
-            cname = test.args[1].id
-        seen_classes.append(cname)
-        found = {m: 0 for m in MASKS}
-        targets_ok = True
-        for b in ast.walk(ast.Module(body=body, type_ignores=[])):
-            if isinstance(b, ast.Assign):
-                for t in b.targets:
-                    if isinstance(t, ast.Attribute) and t.attr in MASKS:
-                        found[t.attr] += 1
-                        if cname == "HvsrAzimuthal":
-                            loop = parent_of(b)
-                            ok = isinstance(loop, ast.For) and isinstance(loop.iter, ast.Attribute) and loop.iter.attr == "hvsrs" \
-                                and isinstance(loop.iter.value, ast.Name) and loop.iter.value.id == "hvsr" \
-                                and isinstance(t.value, ast.Name) and isinstance(loop.target, ast.Name) and t.value.id == loop.target.id \
-                                and not any(isinstance(x, (ast.Break, ast.Continue)) for x in ast.walk(loop))
-                            targets_ok &= ok
+    seen = {"none": False, "trad": False, "az": False, "other": False}
+    attr = lambda a, o: sp.Function("attr_" + a)(o)   # noqa: E731
+
+    def fresh_array_of(st: ast.Assign) -> Optional[str]:
+        v = st.value
+        if isinstance(v, ast.Call) and dotted(v.func) in ("np.array", "numpy.array", "np.copy", "numpy.copy") and v.args and isinstance(v.args[0], ast.Name):
+            dt = kwarg(v, "dtype")
+            if dt is not None and unparse(dt) not in ("bool", "np.bool_", "numpy.bool_"):
+                ck.violation("C13.R3", fq, norm_key(st), f"mask stored with dtype {unparse(dt)}", loc=f.loc(st))
+            return v.args[0].id
+        return None
+    for l in leaves:
+        # stores on `hvsr` itself and inside loops over its members
+        targets: Dict[Tuple[str, str], int] = {}
+        problems = []
+        for e in l.events:
+            if e[0] == "store" and isinstance(e[3], ast.Assign) and isinstance(e[3].targets[0], ast.Attribute) and e[3].targets[0].attr in MASKS:
+                obj = pt._T(l.env).tr(e[3].targets[0].value) if False else None
+                tv = e[3].targets[0].value
+                who = "hvsr" if isinstance(tv, ast.Name) and tv.id == "hvsr" else unparse(tv)
+                targets[(who, e[3].targets[0].attr)] = targets.get((who, e[3].targets[0].attr), 0) + 1
+                mv = fresh_array_of(e[3])
+                if mv is None:
+                    problems.append(f"`{norm_key(e[3], 70)}` does not store a fresh array of the decision list")
+                else:
+                    mask_vars.add(mv)
+            elif e[0] == "loop" and has_mask_store(e[3]):
+                lp = e[3]
+                env0 = l.snaps[id(lp)][0]
+                if not isinstance(lp, ast.For) or not isinstance(lp.target, ast.Name) or any(isinstance(x, (ast.Break, ast.Continue, ast.If)) for x in ast.walk(lp)):
+                    problems.append(f"`{norm_key(lp, 50)}` may skip members")
+                    continue
+                T0 = Translator(env=env0)
+                T0.structured = True
+                T0.attr_of_bound = True
+                seq = T0.tr(lp.iter)
+                who = "each of hvsr.hvsrs" if seq == attr("hvsrs", H) else ("hvsr" if seq == sp.Tuple(H) else f"each of {seq}")
+                for st in lp.body:
+                    if isinstance(st, ast.Assign) and isinstance(st.targets[0], ast.Attribute) and st.targets[0].attr in MASKS:
+                        if not (isinstance(st.targets[0].value, ast.Name) and st.targets[0].value.id == lp.target.id):
+                            problems.append(f"`{norm_key(st, 60)}` does not write the loop's member")
+                        targets[(who, st.targets[0].attr)] = targets.get((who, st.targets[0].attr), 0) + 1
+                        mv = fresh_array_of(st)
+                        if mv is None:
+                            problems.append(f"`{norm_key(st, 70)}` does not store a fresh array of the decision list")
                         else:
-                            targets_ok &= isinstance(t.value, ast.Name) and t.value.id == "hvsr"
-        key = f"propagation for {cname}"
-        if all(v == 1 for v in found.values()) and targets_ok:
-            ck.ok("C13.R3", fq, key, detail="both masks assigned" + (" for every azimuth" if cname == "HvsrAzimuthal" else ""))
+                            mask_vars.add(mv)
+        n_, t_, a_ = case(l, is_none), case(l, is_trad), case(l, is_az)
+        both = lambda who: {(who, m): 1 for m in MASKS}   # noqa: E731
+        if n_ is True:
+            seen["none"] = True
+            if targets:
+                ck.violation("C13.R3", fq, "propagation without a result object", f"masks are written although no result object was given: {sorted(targets)}", loc=f.loc(first))
+        elif t_ is True:
+            seen["trad"] = True
+            if targets == both("hvsr") and not problems:
+                ck.ok("C13.R3", fq, "propagation for HvsrTraditional", detail="both masks assigned")
+            else:
+                ck.violation("C13.R3", fq, "propagation for HvsrTraditional", f"masks assigned {sorted(targets.items())}; {'; '.join(problems)}", loc=f.loc(first))
+        elif a_ is True:
+            seen["az"] = True
+            if targets == both("each of hvsr.hvsrs") and not problems:
+                ck.ok("C13.R3", fq, "propagation for HvsrAzimuthal", detail="both masks assigned for every azimuth")
+            else:
+                ck.violation("C13.R3", fq, "propagation for HvsrAzimuthal", f"masks assigned {sorted(targets.items())}; {'; '.join(problems)}", loc=f.loc(first))
         else:
-            ck.violation("C13.R3", fq, key, f"masks assigned {found}, on the right object(s): {targets_ok}", loc=f.loc(lad))
-    for need in ("HvsrTraditional", "HvsrAzimuthal"):
-        if need not in seen_classes:
-            ck.violation("C13.R3", fq, f"propagation for {need}", f"no branch for {need}", loc=f.loc(lad))
+            seen["other"] = True
+            if l.exit != "raise":
+                if n_ is None and t_ is None and a_ is None:
+                    raise AnalysisError(f"{fq}: a path of the mask propagation does not test the type of `hvsr` ({l.cond()})")
+                ck.violation("C13.R3", fq, "else branch", "unsupported HVSR types are not refused", loc=f.loc(first))
+    for k, need in (("trad", "HvsrTraditional"), ("az", "HvsrAzimuthal")):
+        if not seen[k]:
+            ck.violation("C13.R3", fq, f"propagation for {need}", f"no branch for {need}", loc=f.loc(first))
     if len(mask_vars) != 1:
-        ck.violation("C13.R3", fq, "single decision list",
-                     f"the masks are assigned from different values: {sorted(mask_vars)}", loc=f.loc(prop))
+        ck.violation("C13.R3", fq, "single decision list", f"the masks are assigned from different values: {sorted(mask_vars)}", loc=f.loc(first))
         return None, None
     mask_var = next(iter(mask_vars))
-    # the returned list
     rets = [r for r in own_nodes(f.node) if isinstance(r, ast.Return)]
     pass_var = None
     for r in rets:
@@ -217,7 +233,15 @@ def _r2(ck: Checker, f, mask_var: str, pass_var: str):
     cfg = cfg_of(f)
     loop = _record_loop(f, pass_var)
     if loop is None:
-        ck.violation("C13.R2", fq, "per-record loop", f"no loop appends to the returned list `{pass_var}`", loc=f.loc())
+        fb = _comprehension_form(f, mask_var, pass_var)
+        if fb is None:
+            raise AnalysisError(f"{fq}: construction of `{mask_var}` / `{pass_var}` not recognised (neither an append loop nor aligned comprehensions)")
+        problems = fb["problems"]
+        if not problems:
+            ck.ok("C13.R2", fq, f"{mask_var} = [<decision> for each per-record value]; {pass_var} = [record for record, keep in zip(records, {mask_var}) if keep]",
+                  detail="one boolean per record, in order; kept records are exactly those whose entry is True")
+        else:
+            ck.violation("C13.R2", fq, "per-record decisions", "; ".join(problems), loc=f.loc())
         return
     # loop must iterate over records (possibly zipped) in order
     it = loop.iter
@@ -299,6 +323,78 @@ def _r2(ck: Checker, f, mask_var: str, pass_var: str):
                         if isinstance(c.func, ast.Attribute) and isinstance(c.func.value, ast.Name) and c.func.value.id == var \
                                 and c.func.attr in ("append", "pop", "insert", "remove", "extend", "clear", "reverse", "sort"):
                             ck.violation("C13.R2", fq, norm_key(st), f"`{var}` is modified outside the per-record loop", loc=f.loc(st))
+
+
+def _mask_pass_names(f):
+    """(decision list name, returned list name) from the mask stores and the return statement."""
+    mv = set()
+    for st in ast.walk(f.node):
+        if isinstance(st, ast.Assign) and any(isinstance(t, ast.Attribute) and t.attr in MASKS for t in st.targets):
+            v = st.value
+            if isinstance(v, ast.Call) and v.args and isinstance(v.args[0], ast.Name):
+                mv.add(v.args[0].id)
+    rets = [r for r in own_nodes(f.node) if isinstance(r, ast.Return) and isinstance(r.value, ast.Name)]
+    if len(mv) != 1 or not rets:
+        return None
+    return next(iter(mv)), rets[-1].value.id
+
+
+def _comprehension_form(f, mask_var: str, pass_var: str):
+    """mask = [D(v) for v in S]; passing = [r for r, ok in zip(records, mask) if ok]; S holds one value per record, in order."""
+    defs = {}
+    for st in f.node.body:
+        if isinstance(st, ast.Assign) and len(st.targets) == 1 and isinstance(st.targets[0], ast.Name):
+            defs.setdefault(st.targets[0].id, []).append(st)
+    md, pd = defs.get(mask_var, []), defs.get(pass_var, [])
+    if len(md) != 1 or len(pd) != 1 or not isinstance(md[0].value, ast.ListComp) or not isinstance(pd[0].value, ast.ListComp):
+        return None
+    mc, pc = md[0].value, pd[0].value
+    problems = []
+    if len(mc.generators) != 1 or mc.generators[0].ifs or not isinstance(mc.generators[0].target, ast.Name):
+        return None
+    v = mc.generators[0].target.id
+    S = mc.generators[0].iter
+    elt = mc.elt
+    dec = None
+    if isinstance(elt, ast.IfExp) and isinstance(elt.body, ast.Constant) and isinstance(elt.orelse, ast.Constant) \
+            and elt.body.value is True and elt.orelse.value is False:
+        dec = elt.test
+    elif isinstance(elt, ast.Compare):
+        dec = elt
+    elif isinstance(elt, ast.Call) and call_name(elt) in ("bool", "bool_") and len(elt.args) == 1:
+        dec = elt.args[0]
+    if dec is None:
+        problems.append(f"a mask entry is `{unparse(elt)}`, not a boolean decision")
+    # alignment of S with records
+    aligned = False
+    if isinstance(S, ast.Name) and S.id == "records":
+        aligned = True
+    elif isinstance(S, ast.Name):
+        for lp in [st for st in f.node.body if isinstance(st, ast.For)]:
+            if unparse(lp.iter) == "enumerate(records)" and isinstance(lp.target, ast.Tuple) and len(lp.target.elts) == 2:
+                ix = unparse(lp.target.elts[0])
+                stores = [x for x in ast.walk(lp) if isinstance(x, ast.Assign) and isinstance(x.targets[0], ast.Subscript)
+                          and unparse(x.targets[0].value) == S.id and unparse(x.targets[0].slice) == ix]
+                if len(stores) == 1 and not any(isinstance(x, (ast.Break, ast.Continue)) for x in ast.walk(lp) if _loop_of(x) is lp):
+                    aligned = True
+    if not aligned:
+        problems.append(f"the decisions are taken over `{unparse(S)}`, which is not known to hold one value per record in order")
+    g = pc.generators[0] if len(pc.generators) == 1 else None
+    okp = g is not None and isinstance(g.iter, ast.Call) and call_name(g.iter) == "zip" and [unparse(a) for a in g.iter.args] == ["records", mask_var] \
+        and isinstance(g.target, ast.Tuple) and len(g.target.elts) == 2 and len(g.ifs) == 1 \
+        and unparse(g.ifs[0]) == unparse(g.target.elts[1]) and unparse(pc.elt) == unparse(g.target.elts[0])
+    if not okp:
+        problems.append(f"`{pass_var}` is not [record for record, keep in zip(records, {mask_var}) if keep]")
+    if md[0].lineno > pd[0].lineno:
+        problems.append("the kept records are selected before the decisions are made")
+    return {"problems": problems, "decision": dec, "value_var": v, "values": S, "site": md[0]}
+
+
+def _loop_of(node):
+    p = parent_of(node)
+    while p is not None and not isinstance(p, (ast.For, ast.While)):
+        p = parent_of(p)
+    return p
 
 
 # --------------------------------------------------------------------------- R4
@@ -385,6 +481,27 @@ def _r5_r6_sta(ck: Checker, prog: Program):
     for nm, v in (("sta_values", sta), ("lta", lta)):
         if not (v.is_Function and v.func.__name__ == "mean" and v.args and v.args[0].has(sp.Abs)):
             ck.violation("C13.R5", fq, nm, f"`{nm}` is not a mean of absolute amplitudes: {v}", loc=f.loc(inner))
+    # the STA blocks tile the window from its first sample: K = floor(n_samples / P) blocks of P samples
+    resh = [a for a in sp.preorder_traversal(sta) if getattr(getattr(a, "func", None), "__name__", "") == "reshape"]
+    tiled = False
+    detail = ""
+    if len(resh) == 1 and len(resh[0].args) >= 2 and isinstance(resh[0].args[1], sp.Tuple) and len(resh[0].args[1]) == 2:
+        K, P = resh[0].args[1]
+        src = resh[0].args[0]
+        if isinstance(src, sp.Abs):
+            src = src.args[0]
+        Ns = [T.sym("timeseries.n_samples"), T.env.get("n_samples", T.sym("n_samples"))]
+        okK = any(equal(K, sp.Function("int")(sp.floor(N / P))) or equal(K, sp.floor(N / P)) for N in Ns)
+        gi, sl, NONE = sp.Function("getitem"), sp.Function("slice"), sp.Symbol("None")
+        okS = getattr(src, "func", None) == gi and src.args[0] == amp and getattr(src.args[1], "func", None) == sl \
+            and src.args[1].args[0] == NONE and equal(src.args[1].args[1], K * P) and src.args[1].args[2] == NONE
+        tiled = okK and okS
+        detail = f"{K} blocks of {P} samples from {src}"
+    if tiled:
+        ck.ok("C13.R6", fq, "STA blocks: floor(n_samples/P) blocks of P samples from the start of the window", detail=detail)
+    else:
+        ck.violation("C13.R6", fq, "STA blocks", f"the short-term averages do not cover floor(n_samples/P) whole blocks of the window from its first sample ({detail})",
+                     loc=f.loc(inner))
     ratio = sta / lta
     MAXR, MINR = T.sym("max_sta_lta_ratio"), T.sym("min_sta_lta_ratio")
     rels = []
@@ -445,6 +562,10 @@ def _r5_r6_max(ck: Checker, prog: Program):
     for st in cm:
         v = T.tr(st.value)
         want = sp.Function("max")(sp.Abs(amp))
+        # the per-component statistic may sit inside a comprehension over the components
+        if getattr(getattr(v, "func", None), "__name__", "") == "comp" and len(v.args) == 2 and str(v.args[1].args[1]) == "components":
+            v = v.args[0]
+        v = v.replace(lambda e: getattr(getattr(e, "func", None), "__name__", "") == "attr_amplitude", lambda e: amp)
         if equal(v, want) or (v.is_Function and v.func.__name__ in ("max", "amax") and equal(v.args[0], sp.Abs(amp))):
             ck.ok("C13.R5", fq, norm_key(st), detail="component statistic = max|x|")
         else:
@@ -460,6 +581,12 @@ def _r5_r6_max(ck: Checker, prog: Program):
                 run_ok = True
     if any(call_name(c) == "max" and len(c.args) == 2 for c in calls_in(f.node)):
         run_ok = True
+    for c in calls_in(f.node):
+        # max([0, *per-component values]) / max(0, *values)
+        if call_name(c) == "max" and isinstance(c.func, ast.Name):
+            elems = c.args[0].elts if len(c.args) == 1 and isinstance(c.args[0], (ast.List, ast.Tuple)) else c.args
+            if any(isinstance(e, ast.Starred) for e in elems) and any(isinstance(e, ast.Constant) and e.value == 0 for e in elems):
+                run_ok = True
     if run_ok:
         ck.ok("C13.R5", fq, "maximum over the examined components", nontrivial=False)
     else:
@@ -481,9 +608,19 @@ def _r5_r6_max(ck: Checker, prog: Program):
         else:
             ck.violation("C13.R5", fq, "normalisation", "the normalised values are not value / max(all values)", loc=f.loc(norm[0]))
     # decision
-    loop = _record_loop(f, "passing_records")
+    got = _mask_pass_names(f)
+    loop = _record_loop(f, got[1]) if got else None
     if loop is None:
-        raise AnalysisError(f"{fq}: decision loop not found")
+        fb = _comprehension_form(f, *got) if got else None
+        if fb is None or fb["decision"] is None:
+            raise AnalysisError(f"{fq}: decision not found")
+        cond = _canon_rel(T.tr(fb["decision"]))
+        thr, val = T.sym("maximum_value_threshold"), T.sym(fb["value_var"])
+        if isinstance(cond, sp.Gt) and equal(cond.lhs, thr) and equal(cond.rhs, val) and reaching(f).only_param("maximum_value_threshold", fb["site"]):
+            ck.ok("C13.R6", fq, norm_key(fb["site"], 110), detail="keep iff value < maximum_value_threshold")
+        else:
+            ck.violation("C13.R6", fq, norm_key(fb["site"], 110), f"decision is {cond}; expected keep iff value < threshold", loc=f.loc(fb["site"]))
+        return
     dec = [st for st in loop.body if isinstance(st, ast.If)]
     if len(dec) != 1:
         raise AnalysisError(f"{fq}: decision `if` not found")
